@@ -26,6 +26,7 @@ func init() {
 			ruleLatch(c, "C12.5")
 			ruleUnregisterAndCallbacks(c, "C12.6", "C12.7")
 			ruleKeyAsChannel(c, "C12.8")
+			ruleGetOrCreateAtomic(c, "C12.10")
 		},
 		Explain:    "Static necessary conditions of registry consistency: every registry field access under its mutex; add paired with a deferred remove of the same channel on the same registry before the handler blocks, Close deferred first; the channel's tear-down (unregister) runs before it is marked finished; round-robin pick: advance by one, wrap at len (>=), element read at the cursor of a non-empty list in one critical section, nil -> Unavailable, arguments passed through; latch closed exactly on 0->1 and re-made exactly on 1->0; unregister uses the key returned by the first removal; one open callback after registration and a deferred close callback.",
 		Assume:     []string{"lock identity is type + field"},
